@@ -98,7 +98,11 @@ def edStripPrefix (b : Bytes) : Bytes :=
 (length neither 32 nor 64). -/
 def edBytesOnCurve (b : Bytes) : Option Bool :=
   if b.length = 64 then
-    some (edOnCurveModP ⟨Bytes.toNatLE (b.take 32), Bytes.toNatLE (b.drop 32)⟩)
+    -- both coordinates must be reduced (since the F-ed-unreduced repair; the library raises `ValueError` otherwise, which the callers
+    -- of this function map to "not valid")
+    if Bytes.toNatLE (b.take 32) < edP ∧ Bytes.toNatLE (b.drop 32) < edP then
+      some (edOnCurveModP ⟨Bytes.toNatLE (b.take 32), Bytes.toNatLE (b.drop 32)⟩)
+    else some false
   else if b.length = 32 then (edDecodeNoCheck b).map edOnCurveModP
   else none
 
